@@ -305,11 +305,16 @@ def transpose(score: ScoreLike, interval: Interval) -> ScoreLike:
     new_score = copy.deepcopy(score)
     # Reset recursion limit to previous value to avoid side effects
     sys.setrecursionlimit(old_recursion_depth)
-    if isinstance(score, s.Score):
-        for part in new_score.parts:
-            transpose(part, interval)
-    elif isinstance(score, s.Part):
-        for note in score.notes_tied:
+    if isinstance(new_score, s.Score):
+        parts = new_score.parts
+    elif isinstance(new_score, s.Part):
+        parts = [new_score]
+    else:
+        parts = []
+    # transpose the copy, never the argument; every note of a tie chain
+    # (not only its first one) has to move
+    for part in parts:
+        for note in part.notes:
             _transpose_note_inplace(note, interval)
     return new_score
 
